@@ -235,6 +235,18 @@ func (r *runner) commandInfo() (value string, args []string) {
 	if ch.Linger {
 		args = append(args, "--linger")
 	}
+	if ch.DieByKill {
+		args = append(args, "--die-by-kill")
+	}
+	if ch.DieDelayMs > 0 {
+		args = append(args, "--die-delay-ms", fmt.Sprint(ch.DieDelayMs))
+	}
+	if ch.HangGetState {
+		args = append(args, "--hang-getstate")
+	}
+	if ch.Wrap {
+		args = append(args, "--wrap")
+	}
 	if ch.TermExit >= 0 {
 		args = append(args, "--term-exit-code", fmt.Sprint(ch.TermExit))
 	}
